@@ -221,6 +221,9 @@ impl PendingSubscriptionSink {
 	/// the return value is simply ignored because no further notification are propagated
 	/// once reject has been called.
 	pub async fn reject(self, err: impl Into<ErrorObjectOwned>) {
+		// The subscription is over as soon as it is rejected: its slot is free before the client can see the rejection
+		// (and react to it with another subscribe call).
+		drop(self.permit);
 		// The rejection is a response to the subscribe call: the response size limit applies to it as well.
 		let err = MethodResponse::subscription_response(
 			self.id,
